@@ -329,7 +329,6 @@ func (s *server) receive(raw []byte) (gmsl.PDU, processed, error) {
 // process: the receipt checks 4 and 5 and the bookkeeping that follows from the verdict.
 func (s *server) process(p gmsl.PDU, own bool) processed {
 	ctx := context.Background()
-	id := p.EventID()
 	before, err := s.stateOver(p.PrevEventIDs())
 	if err != nil {
 		panic("x06: " + err.Error())
@@ -364,7 +363,6 @@ func (s *server) process(p gmsl.PDU, own bool) processed {
 		}
 	}
 	s.book(p, before, pr.v)
-	_ = id
 	return pr
 }
 
@@ -398,21 +396,23 @@ func (s *server) receiveLoader(raw []byte) (gmsl.PDU, processed, error) {
 			citedRejected = a
 		}
 	}
-	switch {
-	case r.Error == nil && citedRejected != "":
-		s.glueOnly++
-		pr.v, pr.detail = vRejected, fmt.Sprintf("cites auth event %d which this server rejected", s.w.byID[citedRejected])
-	case r.Error == nil:
-		pr.v = vAccepted
-	case errors.Is(r.Error, gmsl.SignatureErr{}):
-		return r.Event, processed{}, fmt.Errorf("%w: LoadAndVerify refuses a well signed event: %v", errSig, r.Error)
-	case errors.Is(r.Error, gmsl.AuthChainErr{}):
-		pr.v, pr.detail = vRejected, r.Error.Error()
-	case errors.Is(r.Error, gmsl.AuthRulesErr{}):
+	switch le := r.Error.(type) {
+	case nil:
 		if citedRejected != "" {
-			pr.v, pr.detail = vRejected, r.Error.Error()
+			s.glueOnly++
+			pr.v, pr.detail = vRejected, fmt.Sprintf("cites auth event %d which this server rejected", s.w.byID[citedRejected])
 		} else {
-			pr.v, pr.detail = vStateRejected, r.Error.Error()
+			pr.v = vAccepted
+		}
+	case gmsl.SignatureErr:
+		return r.Event, processed{}, fmt.Errorf("%w: LoadAndVerify refuses a well signed event: %v", errSig, le)
+	case gmsl.AuthChainErr:
+		pr.v, pr.detail = vRejected, le.Error()
+	case gmsl.AuthRulesErr:
+		if citedRejected != "" {
+			pr.v, pr.detail = vRejected, le.Error()
+		} else {
+			pr.v, pr.detail = vStateRejected, le.Error()
 		}
 	default:
 		return r.Event, processed{}, fmt.Errorf("LoadAndVerify: unclassified error %v", r.Error)
@@ -571,7 +571,7 @@ func (s *server) hold(p gmsl.PDU, v string) {
 		s.order = append(s.order, id)
 		s.store[id] = p
 	}
-	if old, ok := s.vd[id]; !ok || old == vAccepted {
+	if _, ok := s.vd[id]; !ok {
 		s.vd[id] = v
 	}
 }
